@@ -114,11 +114,19 @@ func (s *ftpService) SetChannel(c pushers.Channel) {
 }
 
 func (s *ftpService) Handle(ctx context.Context, conn net.Conn) error {
+	// the command log of this connection only: it is closed when the session
+	// ends, so the reporting goroutine below exits and never reports another
+	// connection's commands under this connection's addresses
+	recv := make(chan string)
 
-	ftpConn := s.server.newConn(conn, s.driver, s.recv)
+	ftpConn := s.server.newConn(conn, s.driver, recv)
+
+	done := make(chan struct{})
 
 	go func() {
-		for msg := range s.recv {
+		defer close(done)
+
+		for msg := range recv {
 			s.c.Send(event.New(
 				services.EventOptions,
 				event.Category("ftp"),
@@ -131,6 +139,9 @@ func (s *ftpService) Handle(ctx context.Context, conn net.Conn) error {
 	}()
 
 	ftpConn.Serve()
+
+	close(recv)
+	<-done
 
 	return nil
 }
